@@ -405,6 +405,7 @@ end Machine
       class C:                   (for every entry of `classes`)
           def f(self, x: int) -> int:      (for every method; body `return x`, or `b = B(); return b.g(x)` for a `call`,
                                             or `return undefined_name` for `badName`, or a lambda capturing four locals for `lam`)
+      def attach(self, v: int) -> int: return v      (when `crash`: a free function with a `self` parameter)
       v: int = 0 / v: Nope = 0   (for every entry of `vars`; `false` = the annotation does not resolve)
 
   `descLang` says which symbol keys ExpandModules inserts for such a module (calibrated against the real code by the
@@ -435,6 +436,9 @@ structure Desc where
   stdVar : List Key := []
   /-- library symbols the renderer needs for this module whatever its shape (the library stubs themselves) -/
   stdAlways : List Key := []
+  /-- a module-level function whose first parameter is called `self`: collecting the variables of the functions dies with an
+      unexpected exception (ValueError in the node model), which `Modules.load` turns into `Errors.Fatal` (modules.py:89-91) -/
+  crash : Bool := false
 deriving DecidableEq, Repr
 
 def rootQ : Str := ['f','i','l','e','_','i','n','p','u','t']
@@ -477,7 +481,8 @@ def descExpand (p : ModPath) (nf : Str → Desc) (look : Key → Option Str) : L
   let r1 := expandImports look' d.imports (d.classRows p)
   match r1.2 with
   | some e => (r1.1, some e)
-  | none => expandVars d.vars (r1.1 ++ d.fnVarRows)
+  -- after the imports (a missing imported name wins), before the variables of the entrypoint (an unresolvable annotation loses)
+  | none => if d.crash then (r1.1, some .loadFatal) else expandVars d.vars (r1.1 ++ d.fnVarRows)
 
 def extended (v : Str) : Bool := v.getLast? = some '!'
 
